@@ -107,7 +107,10 @@ def interp(skind, series, pos, neg, t, s, mode, dt):
     return at(pos, c) * math.exp(-el / TD) - at(neg, c) * math.exp(-el / TR)
 
 
-def shard(conn, skind, dt, maxk, fractional, T, F=2, only_assign=None, only_clear=(), tol=0.0, alphabet_override=None):
+def shard(conn, skind, dt, maxk, fractional, T, F=2, only_assign=None, only_clear=(), tol=0.0, alphabet_override=None, reassign_at=None):
+    """reassign_at = r: after r steps the per-synapse delays are replaced through the public setter (``conn.delay = D2``, the way
+    an updater applies learned delays) by the assignment rotated one place through the alphabet; from then on the output is the
+    shift by the *new* delays of the same undelayed history."""
     tally = Tally()
     maxdelay = maxk * dt
     W = weight_for(conn, F)
@@ -136,10 +139,12 @@ def shard(conn, skind, dt, maxk, fractional, T, F=2, only_assign=None, only_clea
         D = torch.zeros_like(W)
         for p, k in zip(pos, assign):
             D[p] = float(torch.tensor(k * dt))
-        for clear_at in [None] + list(range(1, T)):
+        D1 = D
+        for clear_at in ([None] + list(range(1, T)) if reassign_at is None else [None]):
             if only_clear != () and clear_at != only_clear:
                 continue
-            case = {**cfg, "delays_in_steps": list(assign), "clear_before_step": clear_at}
+            D = D1
+            case = {**cfg, "delays_in_steps": list(assign), "clear_before_step": clear_at, "reassign_at": reassign_at}
             tally.add("evaluations")
             try:
                 cd = build(conn, skind, dt, maxdelay, B, W, D, mode, tol)
@@ -153,6 +158,17 @@ def shard(conn, skind, dt, maxk, fractional, T, F=2, only_assign=None, only_clea
                     cd.clear()
                     cu.clear()
                     cur, spk, cpos, cneg = [], [], [], []  # contributions from before the clear are rest
+                if reassign_at is not None and t == reassign_at:
+                    assign2 = [alphabet[(alphabet.index(k) + 1 + j) % len(alphabet)] for j, k in enumerate(assign)]
+                    D = torch.zeros_like(W)
+                    for p, k in zip(pos, assign2):
+                        D[p] = float(torch.tensor(k * dt))
+                    case = {**case, "delays_in_steps_after_reassign": assign2}
+                    try:
+                        cd.delay = D.clone()
+                    except Exception as ex:
+                        tally.violation(f"exception:set-delay:{conn}:{skind}:{type(ex).__name__}", {**case, "step": t}, repr(ex))
+                        break
                 inj = ()
                 if skind == "deltaplus":
                     inj = (torch.full(xs[t].shape, 0.25 * (t + 1)),)
@@ -237,11 +253,11 @@ def shard(conn, skind, dt, maxk, fractional, T, F=2, only_assign=None, only_clea
                 # zero delays are indistinguishable from no delay (bitwise)
                 # (not bitwise: the delayed path sums the receptive field with einsum, the undelayed one with matmul, and the
                 # two may associate a 4-term float sum differently)
-                if all(k == 0 for k in assign) and bad(od, ou):
+                if all(k == 0 for k in assign) and reassign_at is None and bad(od, ou):
                     tally.violation(f"zero-delay!=undelayed:{conn}:{skind}", {**case, "step": t}, "all-zero delays differ from the connection built without delays")
                     break
             if any(k > 0 for k in assign):
-                tally.mark("nontrivial", (conn, skind, dt, maxk, fractional, assign, clear_at))
+                tally.mark("nontrivial", (conn, skind, dt, maxk, fractional, assign, clear_at, reassign_at))
     tally.add("histories", B)
     tally.sample({**cfg, "delay_alphabet_in_steps": alphabet, "free_delay_entries": len(pos)})
     return tally
@@ -273,6 +289,11 @@ def run(rep):
         jobs.append((shard, ("direct", skind, 1.3, 3, False, T + 1, 2, None, (), 1e-6)))
     # ... and of 3, 6 and 7 steps, the multiples whose float32 product differs from the float32 step time times k
     jobs.append((shard, ("direct", "delta", 1.3, 7, False, 8, 2, None, (), 1e-6, (0, 3, 6, 7))))
+    # delays replaced through the setter in the middle of a run (after the selector / views were used at least once)
+    for conn in ("dense", "direct", "lateral", "conv"):
+        for skind in ("delta", "exp") if quick else ("delta", "deltaplus", "exp", "dexp"):
+            for r in (1, 2):
+                jobs.append((shard, (conn, skind, 1.0, 2, False, 3 if quick else 4, 1 if conn == "conv" else 2, None, (), 0.0, None, r)))
     # a 2x2 kernel: row/column order of the per-kernel-element delays matters (2x3 input, 64 input letters -> shorter histories)
     for skind in ("delta", "exp") if quick else ("delta", "deltaplus", "exp", "dexp"):
         jobs.append((shard, ("conv22", skind, 1.0, 1 if quick else 2, False, 2, 1)))
@@ -303,6 +324,6 @@ def run(rep):
 
 def replay(case):
     t = shard(case["conn"], case["synapse"], case["dt"], case["maxk"], case["fractional"], case["T"], case.get("F", 2),
-              only_assign=case["delays_in_steps"], only_clear=case["clear_before_step"], tol=case.get("interp_tol", 0.0),
+              only_assign=case["delays_in_steps"], only_clear=case["clear_before_step"], tol=case.get("interp_tol", 0.0), reassign_at=case.get("reassign_at"),
               alphabet_override=case.get("delay_alphabet"))
     return {"violations": [[v["key"], v["message"]] for v in t.violations]}
